@@ -54,8 +54,11 @@ var (
 	portFirst  int
 	scratchDir string
 	workerMoQ  = true
-	workerMem  = 6144
-	spawned    atomic.Int64
+	// address space limit of a worker in MB. A worker with every listener starts at ~1.9 GB and stays below ~2.4 GB
+	// under 384 concurrent exchanges; 5 GB leaves that room and makes ONE input that has the server allocate 4 GiB
+	// (gosrt, MTU field of an accepted SRT handshake) fatal on its own, so that the death is attributable to one exchange
+	workerMem = 5120
+	spawned   atomic.Int64
 )
 
 const portBlock = 24
